@@ -283,6 +283,19 @@ def run():
         row = dict(target=["expface", "support", "expface_refl"][j % 3], kernel=["tpcn", "rwm"][j % 2], resample=["mult", "syst"][(j // 2) % 2],
                    clustering=bool(j % 2), mode=["vec", "scalar", "blobs", "blobs3"][j % 4], metric=["ess", "vol"][(j // 2) % 2], N=[32, 48][j % 2], cluster_every=1)
         tasks.append(("tvf.checks.c07:traced", dict(cfg=dict(to_cfg(row, ck.subseed("alias", j)), xalias=True)), None))
+    # large batches through a vectorised likelihood that returns a read-only view of a buffer it reuses (block-wise evaluation
+    # paths must copy each block before the next call overwrites it)
+    for j, N in enumerate(ck.pick([1100], [1100, 2500, 1025, 4100])):
+        row = dict(target=["gauss2", "bimodal"][j % 2], kernel=["tpcn", "rwm"][j % 2], resample=["syst", "mult"][j % 2], clustering=False,
+                   mode="vec", metric="ess", N=N, cluster_every=1)
+        cfgb = dict(to_cfg(row, ck.subseed("bigvec", j)), ro_buffer=True)
+        cfgb["n_total"] = 2 * N
+        tasks.append(("tvf.checks.c07:traced", dict(cfg=cfgb), None))
+    # prior transform written for one point, parameter by parameter (not row-wise broadcastable)
+    for j in range(ck.pick(4, 12)):
+        row = dict(target=["gauss2", "bimodal", "gauss4", "vonmises"][j % 4], kernel=["tpcn", "rwm"][j % 2], resample=["mult", "syst"][(j // 2) % 2],
+                   clustering=bool(j % 2), mode=["scalar", "vec", "blobs", "blobs2"][j % 4], metric=["ess", "vol"][(j // 2) % 2], N=[32, 48][j % 2], cluster_every=1)
+        tasks.append(("tvf.checks.c07:traced", dict(cfg=dict(to_cfg(row, ck.subseed("indexed", j)), xstyle="indexed")), None))
     # likelihood evaluated in worker processes (integer pool): records are judged by re-evaluating the pure likelihood
     for j in range(ck.pick(2, 6)):
         row = dict(target=["gauss2", "bimodal", "support"][j % 3], kernel=["tpcn", "rwm"][j % 2], resample=["syst", "mult"][j % 2], clustering=bool(j % 2),
@@ -298,6 +311,10 @@ def run():
             continue
         ck.case(dict(cfg=cfg), nontrivial=val["iters"] > 2)
         ck.event("monitored runs")
+        if cfg.get("ro_buffer") and cfg.get("N", 0) > 1024:
+            ck.event("monitored runs with more than 1024 particles through a buffer-reusing vectorised likelihood")
+        if cfg.get("xstyle"):
+            ck.event("monitored runs whose prior transform is written for one point, parameter by parameter")
         if cfg.get("xalias"):
             ck.event("monitored runs whose prior transform returns its argument (identity on the unit cube)")
         if isinstance(cfg.get("pool"), int):
